@@ -59,6 +59,7 @@ def main():
         getattr(mod, "KNOWN_PREDICATES", {}),
     )
     ctx.assumptions = list(getattr(mod, "ASSUMPTIONS", []))
+    core.set_known(pid, getattr(mod, "KNOWN_PREDICATES", {}))
     try:
         mod.run(ctx)
     except Exception:
